@@ -42,6 +42,9 @@ type DevOpt struct {
 	DevRounds  uint64
 	TailRounds uint64
 	Trace      bool
+	// SilentByz: after GST the Byzantine node's protocol messages are lost (it still spams): the honest nodes
+	// have to commit on their own. Otherwise it follows the protocol and spams.
+	SilentByz bool
 }
 
 // RunDev executes one schedule on a fresh world.
@@ -81,7 +84,19 @@ func RunDevOpt(cfg Config, c *mc.Chooser, o DevOpt) (*World, DevStats) {
 					if !w.Down(i) && n.ctl.rh < maxRH {
 						w.BumpRoot(i, maxRH)
 					}
-					limit[i] = roundsUsed(w, i) + o.TailRounds + skewRounds(w, cfg)
+					need, extra := o.TailRounds+skewRounds(w, cfg), uint64(0)
+					if o.SilentByz && cfg.Byz >= 0 {
+						// rounds the silent Byzantine node is elected to lead are wasted by construction (the sortition
+						// bounds them): the node gets `need` rounds with an honest elected leader
+						for r, got := n.BFT.Round, uint64(0); got < need && extra < 32; r++ {
+							if w.PredictLeader(n.BFT.RootHeight, r) == cfg.Byz {
+								extra++
+							} else {
+								got++
+							}
+						}
+					}
+					limit[i] = roundsUsed(w, i) + need + extra
 				}
 				w.tracef("GST")
 			}
@@ -134,6 +149,9 @@ func RunDevOpt(cfg Config, c *mc.Chooser, o DevOpt) (*World, DevStats) {
 			if !w.Live(e.To) {
 				continue
 			}
+			if gst && o.SilentByz && cfg.Byz >= 0 && e.From == cfg.Byz {
+				continue
+			}
 			ch := 0
 			if !gst {
 				ch = c.Choose(4)
@@ -150,6 +168,11 @@ func RunDevOpt(cfg Config, c *mc.Chooser, o DevOpt) (*World, DevStats) {
 				_ = w.Deliver(e)
 				_ = w.Deliver(e)
 			}
+		}
+		if gst && cfg.Byz >= 0 && len(firedNow) > 0 {
+			// an active adversary after GST: besides running the protocol, the Byzantine node spams
+			f := w.Nodes[firedNow[0]].BFT
+			w.Spam(f.RootHeight, f.Round)
 		}
 		done := true
 		for i := range w.Nodes {
@@ -269,11 +292,12 @@ func devLiveness(r *mc.Run, cfgs []NamedConfig, cov map[string]any, only string)
 		k         int
 		devRounds uint64
 		n4only    bool
+		silent    bool
 	}
 	// bounds are iterated: the smaller one is completed before the larger one is attempted
-	bounds := []bound{{1, 1, false}, {1, 2, false}, {2, 2, true}}
+	bounds := []bound{{1, 1, false, false}, {1, 2, false, true}, {1, 2, false, false}, {2, 2, true, true}}
 	if !r.Quick() {
-		bounds = []bound{{1, 1, false}, {1, 2, false}, {2, 1, false}, {2, 2, false}, {2, 3, false}, {3, 2, true}}
+		bounds = []bound{{1, 1, false, false}, {1, 2, false, true}, {1, 2, false, false}, {2, 1, false, false}, {2, 2, false, true}, {2, 2, false, false}, {2, 3, false, true}, {3, 2, true, true}}
 	}
 	var per []map[string]any
 	var total int64
@@ -286,6 +310,9 @@ func devLiveness(r *mc.Run, cfgs []NamedConfig, cov map[string]any, only string)
 			if bd.devRounds == 1 && !change {
 				continue // a one-round prefix only adds something where the root height moves at GST
 			}
+			if bd.silent && nc.Cfg.Byz < 0 {
+				continue
+			}
 			if r.Expired() {
 				r.Exhaustive = false
 				break
@@ -295,7 +322,7 @@ func devLiveness(r *mc.Run, cfgs []NamedConfig, cov map[string]any, only string)
 			var mu sync.Mutex
 			newBody := func() func(c *mc.Chooser) {
 				return func(c *mc.Chooser) {
-					w, _ := RunDevOpt(nc.Cfg, c, DevOpt{MaxRounds: bd.devRounds + tailRounds + 64, DevRounds: bd.devRounds, TailRounds: tailRounds})
+					w, _ := RunDevOpt(nc.Cfg, c, DevOpt{MaxRounds: bd.devRounds + tailRounds + 64, DevRounds: bd.devRounds, TailRounds: tailRounds, SilentByz: bd.silent})
 					honest, worst := 0, uint64(0)
 					for _, cm := range w.Commits {
 						if w.Honest(cm.Node) {
@@ -310,7 +337,7 @@ func devLiveness(r *mc.Run, cfgs []NamedConfig, cov map[string]any, only string)
 						key = fmt.Sprintf("%d honest commits, slowest in its round %d", honest, worst)
 					} else {
 						r.Violation("C15:no-commit-after-message-level-prefix", fmt.Sprintf("config %s: after the message-level prefix %v (<= %d deviations inside the first %d rounds), %d synchronous rounds did not commit at any honest node", nc.Name, c.Trace, bd.k, bd.devRounds, tailRounds),
-							map[string]any{"config": nc.Name, "choices": c.Trace, "search": "message-level-liveness", "dev_rounds": bd.devRounds})
+							map[string]any{"config": nc.Name, "choices": c.Trace, "search": "message-level-liveness", "dev_rounds": bd.devRounds, "silent_byz": bd.silent})
 					}
 					mu.Lock()
 					hist[key]++
@@ -323,8 +350,8 @@ func devLiveness(r *mc.Run, cfgs []NamedConfig, cov map[string]any, only string)
 				r.Exhaustive = false
 			}
 			per = append(per, map[string]any{"config": nc.Name, "executions": st.Executions, "max_choice_points": st.MaxPoints, "deviation_bound": bd.k,
-				"prefix_rounds": bd.devRounds, "tail_rounds": tailRounds, "outcomes": hist, "complete": st.Complete})
-			fmt.Printf("liveness2 config=%s k<=%d prefix=%d rounds executions=%d outcomes=%v complete=%v\n", nc.Name, bd.k, bd.devRounds, st.Executions, hist, st.Complete)
+				"prefix_rounds": bd.devRounds, "tail_rounds": tailRounds, "byzantine_after_gst": map[bool]string{true: "silent+spam", false: "protocol+spam"}[bd.silent], "outcomes": hist, "complete": st.Complete})
+			fmt.Printf("liveness2 config=%s k<=%d prefix=%d rounds silent=%v executions=%d outcomes=%v complete=%v\n", nc.Name, bd.k, bd.devRounds, bd.silent, st.Executions, hist, st.Complete)
 		}
 	}
 	cov["message_level_prefixes"] = per
